@@ -38,6 +38,10 @@ type WSMsg struct {
 	Class  int    `json:"class"`            // see genBytes
 	Masked bool   `json:"masked,omitempty"` // mode 1, client->server only
 	Key    uint32 `json:"key,omitempty"`    // masking key (big endian on the wire)
+	// Burst: the next message (if it goes the same way) is written before this
+	// one is read; a burst stays far below the 1 MiB send buffer, so that the
+	// bundled helpers' ignoring of partial writes does not come into play.
+	Burst bool `json:"burst,omitempty"`
 }
 
 type WSCase struct {
@@ -53,6 +57,7 @@ const (
 	rfcSampleAccept = "s3pPLMBiTxaQ9kYGzzhZRbK+xOo="
 	maxWSMsg        = 320000
 	maxWSSession    = 3 << 20
+	maxWSBurst      = 200000
 )
 
 func (m WSMsg) payload() []byte { return genBytes(m.Seed, m.N, m.Class) }
@@ -261,71 +266,100 @@ func runWSOnce(c WSCase) *evid.Failure {
 		}
 		return b, nil
 	}
-	for i, m := range c.Msgs {
-		want := m.payload()
-		var got []byte
-		var err error
-		how := ""
+	howOf := func(m WSMsg) string {
 		switch {
 		case m.Dir == 0 && c.Mode == 0:
-			how = "bundled Client.Push -> bundled Conn.ReadData"
+			return "bundled Client.Push -> bundled Conn.ReadData"
 		case m.Dir == 0 && m.Masked:
-			how = fmt.Sprintf("frame masked with key %08x by the harness -> bundled Conn.ReadData", m.Key)
+			return fmt.Sprintf("frame masked with key %08x by the harness -> bundled Conn.ReadData", m.Key)
 		case m.Dir == 0:
-			how = "unmasked frame written by the harness -> bundled Conn.ReadData"
+			return "unmasked frame written by the harness -> bundled Conn.ReadData"
 		case c.Mode == 0:
-			how = "bundled Conn.SendData -> bundled Client.Recv"
-		default:
-			how = "bundled Conn.SendData -> strict RFC 6455 decoder of the harness"
+			return "bundled Conn.SendData -> bundled Client.Recv"
 		}
-		ok, pan := within(wsStepDeadline, func() {
-			if m.Dir == 0 {
-				switch {
-				case c.Mode == 0:
-					err = s.wc.Push(string(want))
-				default:
-					err = conn.Write(encodeFrame(1, m.Masked, m.key(), want))
-				}
-				if err == nil {
-					got, err = s.sc.ReadData()
-				}
-				return
-			}
-			if err = s.sc.SendData(want); err != nil {
-				return
-			}
-			if c.Mode == 0 {
-				var r string
-				r, err = s.wc.Recv()
-				got = []byte(r)
-				return
-			}
-			var f wsFrame
-			f, err = decodeFrame(readn)
-			if err == nil {
-				switch {
-				case !f.Fin || f.Opcode != 1:
-					err = fmt.Errorf("frame is not a final text frame (fin=%v opcode=%d)", f.Fin, f.Opcode)
-				case f.Masked:
-					err = fmt.Errorf("server frame is masked")
-				}
-			}
-			got = f.Payload
-		})
-		dir := map[int]string{0: "client->server", 1: "server->client"}[m.Dir]
+		return "bundled Conn.SendData -> strict RFC 6455 decoder of the harness"
+	}
+	send := func(m WSMsg, payload []byte) error {
 		switch {
-		case pan != "":
-			return evid.Failf("ws-panic", "message %d (%s, %d bytes, %s): %s", i, dir, m.N, how, pan)
-		case !ok:
-			return evid.Failf("ws-timeout:message", "message %d (%s, %d bytes, %s) was not received within %v", i, dir, m.N, how, wsStepDeadline)
+		case m.Dir == 1:
+			return s.sc.SendData(payload)
+		case c.Mode == 0:
+			return s.wc.Push(string(payload))
+		}
+		return conn.Write(encodeFrame(1, m.Masked, m.key(), payload))
+	}
+	recv := func(m WSMsg) ([]byte, error) {
+		switch {
+		case m.Dir == 0:
+			return s.sc.ReadData()
+		case c.Mode == 0:
+			r, err := s.wc.Recv()
+			return []byte(r), err
+		}
+		f, err := decodeFrame(readn)
+		switch {
 		case err != nil:
-			add(evid.Failf("ws-message-error", "message %d (%s, %d bytes, %s): %v", i, dir, m.N, how, err))
-		case !bytes.Equal(got, want):
-			add(evid.Failf("ws-message-mismatch", "message %d (%s, %d bytes, %s) was received altered: %s", i, dir, m.N, how, firstDiff(want, got)))
+			return nil, err
+		case !f.Fin || f.Opcode != 1:
+			return nil, fmt.Errorf("frame is not a final text frame (fin=%v opcode=%d)", f.Fin, f.Opcode)
+		case f.Masked:
+			return nil, fmt.Errorf("server frame is masked")
 		}
-		if len(fs) > 0 {
-			break
+		return f.Payload, nil
+	}
+	for i := 0; i < len(c.Msgs) && len(fs) == 0; {
+		// a group: messages of one direction written back to back before any
+		// of them is read (Burst), small enough for one send buffer
+		j, size := i, c.Msgs[i].N
+		for c.Msgs[j].Burst && j+1 < len(c.Msgs) && c.Msgs[j+1].Dir == c.Msgs[i].Dir && size+c.Msgs[j+1].N <= maxWSBurst {
+			j++
+			size += c.Msgs[j].N
 		}
+		group := c.Msgs[i : j+1]
+		wants := make([][]byte, len(group))
+		gots := make([][]byte, len(group))
+		errs := make([]error, len(group))
+		for k, m := range group {
+			wants[k] = m.payload()
+		}
+		progress := 0 // only read after the goroutine finished
+		ok, pan := within(wsStepDeadline, func() {
+			for k, m := range group {
+				if errs[k] = send(m, wants[k]); errs[k] != nil {
+					return
+				}
+			}
+			for k, m := range group {
+				if gots[k], errs[k] = recv(m); errs[k] != nil {
+					return
+				}
+				progress = k + 1
+			}
+		})
+		dir := map[int]string{0: "client->server", 1: "server->client"}[group[0].Dir]
+		burst := ""
+		if len(group) > 1 {
+			burst = fmt.Sprintf(" [written back to back with messages %d..%d]", i, j)
+		}
+		if pan != "" {
+			return evid.Failf("ws-panic", "messages %d..%d (%s, %s)%s: %s", i, j, dir, howOf(group[0]), burst, pan)
+		}
+		if !ok {
+			return evid.Failf("ws-timeout:message", "messages %d..%d (%s, lengths from %d, %s)%s were not all received within %v", i, j, dir, group[0].N, howOf(group[0]), burst, wsStepDeadline)
+		}
+		_ = progress
+		for k, m := range group {
+			switch {
+			case errs[k] != nil:
+				add(evid.Failf("ws-message-error", "message %d (%s, %d bytes, %s)%s: %v", i+k, dir, m.N, howOf(m), burst, errs[k]))
+			case !bytes.Equal(gots[k], wants[k]):
+				add(evid.Failf("ws-message-mismatch", "message %d (%s, %d bytes, %s)%s was received altered: %s", i+k, dir, m.N, howOf(m), burst, firstDiff(wants[k], gots[k])))
+			}
+			if len(fs) > 0 {
+				break
+			}
+		}
+		i = j + 1
 	}
 
 	// The frames as they crossed the NIC.
@@ -415,11 +449,14 @@ func labelWS(c WSCase) {
 		if m.Masked {
 			evid.Label("ws_msg_masked")
 		}
+		if m.Burst {
+			evid.Label("ws_msg_burst_flag")
+		}
 		if nearBoundary(m.N) {
 			evid.Label("ws_msg_near_boundary_" + d)
 		}
 		if nearBoundary(m.N) || m.Masked {
-			evid.NonTrivialKey("ws", c.Mode, m.Dir, m.N, m.Seed, m.Class, m.Masked, m.Key)
+			evid.NonTrivialKey("ws", c.Mode, m.Dir, m.N, m.Seed, m.Class, m.Masked, m.Key, m.Burst)
 		}
 	}
 }
@@ -492,6 +529,7 @@ func genWS(rt *rapid.T) WSCase {
 				m.Key = rapid.Uint32().Draw(rt, "maskkey")
 			}
 		}
+		m.Burst = rapid.IntRange(0, 3).Draw(rt, "burst") == 3
 		c.Msgs = append(c.Msgs, m)
 	}
 	return c
@@ -563,7 +601,7 @@ func TestWSBoundary(t *testing.T) {
 				}
 			}
 			for _, n := range lens[start:end] {
-				m := WSMsg{Dir: cb.dir, N: n, Seed: uint64(n*7 + ci), Class: n % 4, Masked: cb.masked}
+				m := WSMsg{Dir: cb.dir, N: n, Seed: uint64(n*7 + ci), Class: n % 4, Masked: cb.masked, Burst: idx%2 == 1}
 				if cb.masked {
 					m.Key = uint32(n+1) * 0x9E3779B9
 				}
